@@ -1,5 +1,6 @@
 import SdJwt.Lemmas.Reject
 import SdJwt.Lemmas.RestoreAll
+import SdJwt.Lemmas.CodecL
 /-!
 # C12 — SD-JWTs the specification says must be rejected are rejected
 
@@ -185,3 +186,18 @@ theorem C12_defect_in_value (env : Env) (P : J) (L : List String) (s : String) (
       simp only [List.mem_flatten, List.mem_map]
       exact ⟨embedded d.value, ⟨d, hd', rfl⟩, hg1⟩
     exact (List.nodup_append.mp hnd).2.2 g hg2 g hmem rfl
+
+
+/-- **a disclosure string with any character outside the base64url alphabet is rejected** — `=`
+padding, the standard alphabet's `+` and `/`, white space, anything: `Disclosure::from_base64` fails
+at its first step, whatever the rest of the string is; so does a string whose length is 1 modulo 4.
+(With `B64.dec_injective`: no two different strings decode to the same bytes, so a re-spelled
+disclosure is never read as the original.) -/
+theorem C12_foreign_character_rejected (c : Codec) (alg s : String) (ch : Char) (hin : ch ∈ s.toList)
+    (hout : B64.val ch = none) : fromBase64 (c.env alg) s = .err .decoding := by
+  have : (c.env alg).decodeDisc s = none := by
+    simp [Codec.env, Codec.decodeDisc, B64.dec_rejects_foreign s.toList ch hin hout]
+  simp [fromBase64, this]
+
+example : B64.val '=' = none ∧ B64.val '+' = none ∧ B64.val '/' = none ∧ B64.val ' ' = none ∧
+    B64.val '~' = none := by decide
